@@ -496,11 +496,14 @@ func c12Rules(c *Ctx, r1, r2, r3, r4, r5 string) {
 			}
 			return ""
 		}
-		for _, ls := range []bwsState{roles.state("running"), roles.state("unstarted")} {
+		for _, ls := range []bwsState{roles.state("running"), roles.state("stopped"), roles.state("unstarted")} {
 			iv := int64(1)
 			slot := "initialized"
-			if ls.name == "unstarted" {
+			switch ls.name {
+			case "unstarted":
 				iv, slot = 0, "not-initialized"
+			case "stopped":
+				slot = "stopped" // what is written after Stop is still buffered: a Sync must flush it all the same
 			}
 			seqs, trunc := ConcPaths(sync, ConcCfg{
 				InitFields: ls.initFields(sync.Params[0]), Conc: ls.conc(recvN),
@@ -535,7 +538,7 @@ func c12Rules(c *Ctx, r1, r2, r3, r4, r5 string) {
 				}
 			}
 			if iv == 1 {
-				c.Check(len(bad) == 0, r3, sync.String(), "flush-before-sync", sync.Pos(), "with initialized fixed to true every path of Sync (helpers explored inline) flushes the buffer, then syncs the sink, and returns an error built from both results (offending paths: %v)", bad)
+				c.Check(len(bad) == 0, r3, sync.String(), "flush-before-sync/"+ls.name, sync.Pos(), "in the "+ls.name+" state every path of Sync (helpers explored inline) flushes the buffer, then syncs the sink, and returns an error built from both results (offending paths: %v)", bad)
 			} else {
 				c.Check(len(bad) == 0, r3, sync.String(), "always-syncs-sink", sync.Pos(), "with initialized fixed to false every path of Sync syncs the sink (no flush of the not yet created buffer) and returns that result (offending paths: %v)", bad)
 			}
